@@ -43,11 +43,31 @@ def has_defaults(cls):
     return attr.has(cls) and any(f.init and f.default is not attr.NOTHING for f in attr.fields(cls))
 
 
+_EXTRA_REQUIRED = {}
+
+
 def construct_default(obj):
+    """construct with as many default arguments as the class accepts: the fields without a default come
+    from the template; a field whose own default is rejected by its validator (cipher_suite=None) too"""
+    import re
     kw = required_kwargs(obj)
     if kw is None:
         return None
-    return type(obj)(**kw)
+    cls = type(obj)
+    names = {f.name.lstrip('_'): f.name for f in attr.fields(cls) if f.init}
+    for extra in _EXTRA_REQUIRED.get(cls, ()):
+        kw[extra] = copy.deepcopy(getattr(obj, names[extra]))
+    for _ in range(len(names) + 1):
+        try:
+            return cls(**kw)
+        except Exception as e:  # pylint: disable=broad-except
+            cand = [n for n in re.findall(r"'(\w+)'", str(e)) if n.lstrip('_') in names and n.lstrip('_') not in kw]
+            if not cand:
+                raise
+            n = cand[0].lstrip('_')
+            kw[n] = copy.deepcopy(getattr(obj, names[n]))
+            _EXTRA_REQUIRED.setdefault(cls, []).append(n)
+    return cls(**kw)
 
 
 def mutable_parts(obj, depth=0, path=''):
@@ -188,7 +208,25 @@ def observers_of(obj):
             res.append(name)
     if 'as_markdown' in res:
         res.append('as_markdown_enc')
+    else:
+        # values that are not Serializable themselves are reported through an enclosing result object
+        res += ['as_json', 'as_markdown', 'as_markdown_enc']
     return res
+
+
+_HOLDER = []
+
+
+def holder(obj):
+    """what an analyzer built on the library does: a Serializable result object holding the value"""
+    from cryptoparser.common.base import Serializable
+    if not _HOLDER:
+        @attr.s
+        class ScanResult(Serializable):
+            target = attr.ib()
+            value = attr.ib()
+        _HOLDER.append(ScanResult)
+    return _HOLDER[0]('example.com', obj)
 
 
 class _UpperEncoder(object):
@@ -198,6 +236,8 @@ class _UpperEncoder(object):
 def call_observer(obj, name):
     """returns (digest-able result, raised?)"""
     from .project import project
+    if name in ('as_json', 'as_markdown', 'as_markdown_enc') and getattr(type(obj), 'as_markdown', None) is None:
+        obj = holder(obj)
     if name == 'as_markdown_enc':
         # markdown rendering under a caller-installed class-level text encoder: the encoder is process-wide
         # state that the call must leave as it found it
